@@ -111,6 +111,7 @@ pub fn op_name(op: &Op) -> &'static str {
         Op::AdvanceClock(_) => "advance_clock",
         Op::CollectReward { .. } => "collect_reward",
         Op::SetEmissions { .. } => "set_emissions",
+        Op::SetEmissionsNearVault { .. } => "set_emissions_near_vault",
         Op::FundRewardVault { .. } => "fund_reward_vault",
     }
 }
